@@ -52,7 +52,7 @@ func returnedError(r *ssa.Return) ssa.Value {
 	}
 	if u, ok := v.(*ssa.UnOp); ok && u.Op == token.MUL {
 		if a, ok := u.X.(*ssa.Alloc); ok {
-			if s := lastStoreBefore(r, a); s != nil {
+			if s := kit.ReachingStore(r, a); s != nil {
 				return s
 			}
 		}
@@ -99,8 +99,18 @@ func isServerErrorAt(p *kit.Prog, v ssa.Value, at *ssa.BasicBlock) bool {
 	// a fact "this very phi is not nil" also rules out its nil inputs
 	notNil := false
 	for _, f := range kit.FactsAt(at) {
-		if cmp, ok := kit.CanonCmp(f.Cond, f.Pol); ok && cmp.Op == token.NEQ && kit.IsNilConst(cmp.Y) && kit.Root(cmp.X) == ssa.Value(ph) {
-			notNil = true
+		if cmp, ok := kit.CanonCmp(f.Cond, f.Pol); ok && cmp.Op == token.NEQ && kit.IsNilConst(cmp.Y) {
+			x := cmp.X
+			if u, isLoad := x.(*ssa.UnOp); isLoad && u.Op == token.MUL {
+				if a, isLocal := u.X.(*ssa.Alloc); isLocal {
+					if sv := kit.ReachingStore(u, a); sv != nil {
+						x = sv
+					}
+				}
+			}
+			if kit.Root(x) == ssa.Value(ph) {
+				notNil = true
+			}
 		}
 	}
 	n := 0
